@@ -157,7 +157,7 @@ pub fn run(ctx: &Ctx, ev: &mut Ev) {
     // (b) hostile tails after long valid prefixes (reserve retry path: many errors / unmappables after a long valid prefix)
     if ctx.want("random") {
         let mut r = ctx.rng(11);
-        let n = ctx.budget(60_000, 2_000_000);
+        let n = ctx.budget(60_000, 10_000_000);
         for i in 0..n {
             let enc = ALL[r.below(40)];
             let mut v: Vec<u8> = vec![];
